@@ -149,11 +149,18 @@ func groupObligations(vs []Verdict) map[string]*Obligation {
 	// that was free of, say, unproved reflect.Value.Type calls from silently gaining one.
 	agg := map[string]*Obligation{}
 	for name, o := range obs {
-		m := safeSiteRe.FindStringSubmatch(name)
-		if m == nil {
+		key := ""
+		if m := safeSiteRe.FindStringSubmatch(name); m != nil {
+			key = m[1] + "/safe-all:" + m[2]
+		} else if m := waitSiteRe.FindStringSubmatch(name); m != nil {
+			key = m[1] + "/cancellable-all:" + m[2]
+		} else if m := disciplineRe.FindStringSubmatch(name); m != nil {
+			// access-discipline obligations are named per field: a function that starts to touch a field it never
+			// touched before gets a new name, which the baseline does not know — the aggregate does
+			key = m[1] + "/discipline-all"
+		} else {
 			continue
 		}
-		key := m[1] + "/safe-all:" + m[2]
 		a := agg[key]
 		if a == nil {
 			a = &Obligation{Name: key, OK: true, Func: o.Func}
@@ -194,6 +201,8 @@ func groupObligations(vs []Verdict) map[string]*Obligation {
 }
 
 var safeSiteRe = regexp.MustCompile(`^(.*)/safe:([^#]+)#\d+$`)
+var disciplineRe = regexp.MustCompile(`^(.*)/(lockset|own|own-write|alias|alias-in):.+$`)
+var waitSiteRe = regexp.MustCompile(`^(.*)/cancellable:([^@]+)@wait#\d+$`)
 
 // ---------------------------------------------------------------------------------------------
 // Property -> functions
@@ -301,7 +310,7 @@ func isAutoObligation(name string) bool {
 		return false
 	}
 	k := name[i+1:]
-	for _, p := range []string{"safe:", "safe-all:", "lockset:", "own:", "order#", "alias:", "alias-in:", "lock-balance:", "bcast-locked#"} {
+	for _, p := range []string{"safe:", "safe-all:", "lockset:", "own:", "order#", "alias:", "alias-in:", "lock-balance:", "bcast-locked#", "cancellable:", "discipline-all"} {
 		if strings.HasPrefix(k, p) {
 			return true
 		}
@@ -366,6 +375,7 @@ type PropRun struct {
 	XChecked  int
 	XAgreed   int
 	XDisagree []string
+	NotAdmittedFailing []string
 }
 
 // replayBudget: overlay tests a single check run may spend on replaying counterexamples.
@@ -614,11 +624,16 @@ func cmdCheck(args []string) int {
 	for _, be := range want {
 		inBase[be.Name] = true
 	}
-	for n := range pr.Obs {
+	pr.NotAdmittedFailing = []string{}
+	for n, o := range pr.Obs {
 		if !inBase[n] && !strings.Contains(n, "/cover:") {
 			notAdmitted++
+			if !o.OK {
+				pr.NotAdmittedFailing = append(pr.NotAdmittedFailing, n)
+			}
 		}
 	}
+	sort.Strings(pr.NotAdmittedFailing)
 	exit := 0
 	nviol := 0
 	os.MkdirAll(filepath.Join(outDir, "replays", *prop), 0o755)
@@ -737,6 +752,7 @@ func writeEvidence(e *Engine, pr *PropRun, prop, tier string, seed, obligations,
 		"second_solver_undecided":            pr.XChecked - pr.XAgreed - len(pr.XDisagree),
 		"solver_disagreements":               len(pr.XDisagree),
 		"obligations_generated_not_admitted": notAdmitted,
+		"not_admitted_undischarged":          pr.NotAdmittedFailing,
 		"samples":                            samples,
 		"bounded":                            []string{},
 	}
